@@ -93,7 +93,7 @@ PROBES = [
     'probe:shift_ge_width', 'probe:minint_div_neg1', 'probe:map_delete_general', 'probe:value_receiver',
     'probe:array_eq', 'probe:map_range_key_only', 'probe:field_slice_syntax', 'probe:global_int64_init',
     'probe:loopvar_closure', 'probe:nil_map_zero_value', 'probe:range_invalid_utf8', 'probe:fallthrough',
-    'probe:eval_order', 'probe:global_uint64_init', 'probe:iface_to_iface_assign', 'probe:nested_closure_capture', 'probe:string_order_invalid_utf8',
+    'probe:eval_order', 'probe:global_uint64_init', 'probe:iface_to_iface_assign', 'probe:string_order_invalid_utf8',
     'probe:assert_fail_string_zero', 'probe:float_to_uint_high', 'probe:map_array_key',
     'probe:method_expr',
 ]
@@ -1268,13 +1268,19 @@ class Gen(object):
             fe.add(t2, 'c')
             fe.add(t2, 'step')
             upd = self.nonconst(fe, t2, self.expr(fe, t2, 2))
-            # (a func literal nested in a func literal and capturing the outer literal's locals makes the
-            #  Wa back end abort: the factory is a top-level function in the safe stream, see gen/findings.py)
-            mk = 'g%d%s' % (grp.idx, mk)
-            grp.decls.append((mk, 'func %s(step %s) func() %s {\n\tvar c %s\n\treturn func() %s {\n\t\tc = %s\n\t\tc += step\n\t\treturn c\n\t}\n}'
-                              % (mk, t2, t2, t2, t2, upd.render())))
-            st.append(S(['%s := %s({0})' % (a, mk), '%s := %s({1})' % (b, mk), '_, _ = %s, %s' % (a, b)],
-                        [self.expr(env, t2, 1), self.expr(env, t2, 1)], keep=True))
+            # the factory is either a top-level function or a func literal nested in main (the nested form made
+            # the back end abort until fix c6e0763, gen/findings.py #13)
+            if self.chance(0.5):
+                st.append(S(['%s := func(step %s) func() %s {' % (mk, t2, t2), '\tvar c %s' % t2, '\treturn func() %s {' % t2,
+                             '\t\tc = {0}', '\t\tc += step', '\t\treturn c', '\t}', '}',
+                             '%s := %s({1})' % (a, mk), '%s := %s({2})' % (b, mk), '_, _ = %s, %s' % (a, b)],
+                            [upd, self.expr(env, t2, 1), self.expr(env, t2, 1)], keep=True))
+            else:
+                mk = 'g%d%s' % (grp.idx, mk)
+                grp.decls.append((mk, 'func %s(step %s) func() %s {\n\tvar c %s\n\treturn func() %s {\n\t\tc = %s\n\t\tc += step\n\t\treturn c\n\t}\n}'
+                                  % (mk, t2, t2, t2, t2, upd.render())))
+                st.append(S(['%s := %s({0})' % (a, mk), '%s := %s({1})' % (b, mk), '_, _ = %s, %s' % (a, b)],
+                            [self.expr(env, t2, 1), self.expr(env, t2, 1)], keep=True))
             for _ in range(self.rng.randint(2, 5)):
                 w = self.pick([a, b])
                 r = self.fresh('r')
@@ -2120,9 +2126,6 @@ class Gen(object):
             grp.decls.append((tn + 'ii', 'type %sBig interface {\n\tA() int32\n\tB() int32\n}\n\ntype %sSmall interface {\n\tB() int32\n}\n\n'
                               'type %sImp struct {\n\tv int32\n}\n\nfunc (p *%sImp) A() int32 {\n\treturn p.v\n}\n\nfunc (p *%sImp) B() int32 {\n\treturn p.v + 1\n}' % (tn, tn, tn, tn, tn)))
             st.append(S(['var pbig %sBig = &%sImp{v: 4}' % (tn, tn), 'var psmall %sSmall = pbig' % tn, 'println("ifaceassign", psmall.B())']))
-        elif w == 'nested_closure_capture':
-            st.append(S(['pmk := func(step int32) func() int32 {', '\tvar c int32', '\treturn func() int32 {', '\t\tc += step', '\t\treturn c', '\t}', '}',
-                         'pa := pmk(2)', 'pr1 := pa()', 'pr2 := pa()', 'println("nestedclosure", pr1, pr2)']))
         elif w == 'string_order_invalid_utf8':
             st.append(S(['pso := "h\u00e9llo"', 'for k := 0; k < len(pso); k++ {', '\tprintln("strorder", k, pso < pso[k:], pso[k:] < pso, pso == pso[k:])', '}']))
         else:
